@@ -46,6 +46,7 @@ def socket_on(port):
 
 class C19(Prop):
     id = "C19"
+    tour_every = 3
     level = "exploration"
     technique = "exhaustive invariant check over the live enum members, device classes and port tables"
     rule = ("checked on the fresh import and again after a workload (bridge on default/new-firmware/custom ports hearing all 9 types together with "
